@@ -21,6 +21,7 @@ type bkv struct {
 type bdb struct {
 	items  []bkv
 	closed bool
+	dir    string
 }
 
 type btxn struct {
@@ -206,7 +207,7 @@ func init() {
 				return tuple{cell, iface{}}
 			}
 		}
-		db := &bdb{}
+		db := &bdb{dir: dir}
 		if dir != "" {
 			bdbDirs[dir] = db
 		}
@@ -382,12 +383,18 @@ func init() {
 			if f, ok := hookFns["badger-flush"]; ok && len(b.ops) > 0 {
 				call(fr.i, fr, 0, f, []value{"before"})
 			}
+			if f, ok := hookFns["badger-flush-dir"]; ok && len(b.ops) > 0 {
+				call(fr.i, fr, 0, f, []value{"before", b.db.dir})
+			}
 			b.db.apply(b.ops)
 			b.flushed = true
 			nops := len(b.ops)
 			b.ops = nil
 			if f, ok := hookFns["badger-flush"]; ok && nops > 0 {
 				call(fr.i, fr, 0, f, []value{"after"})
+			}
+			if f, ok := hookFns["badger-flush-dir"]; ok && nops > 0 {
+				call(fr.i, fr, 0, f, []value{"after", b.db.dir})
 			}
 		}
 		return iface{}
